@@ -153,6 +153,26 @@ func registerIntrinsics(e *Engine) {
 	r("zz:zzConcretize", func(p *Path, _ *frame, _ *ssa.Function, args []Value, _ ssa.CallInstruction) Value {
 		return p.F.BVConst64(p.concretize(args[0].(*term.T), "zzConcretize"), 64)
 	})
+	// zzFixSlice(b): the same slice after case-splitting the path over its offset, length
+	// and capacity, so that later indexing needs no bounds queries.
+	r("zz:zzFixSlice", func(p *Path, _ *frame, _ *ssa.Function, args []Value, _ ssa.CallInstruction) Value {
+		s, ok := args[0].(*SliceV)
+		if !ok || s.Obj == nil {
+			return args[0]
+		}
+		F := p.F
+		n := &SliceV{Obj: s.Obj, Base: s.Base, Off: s.Off, Len: s.Len, Cap: s.Cap}
+		if !n.Len.IsConst() {
+			n.Len = F.BVConst64(p.concretize(n.Len, "zzFixSlice len"), 64)
+		}
+		if !n.Off.IsConst() {
+			n.Off = F.BVConst64(p.concretize(n.Off, "zzFixSlice off"), 64)
+		}
+		if !n.Cap.IsConst() {
+			n.Cap = F.BVConst64(p.concretize(n.Cap, "zzFixSlice cap"), 64)
+		}
+		return n
+	})
 	r("zz:zzIte", func(p *Path, _ *frame, _ *ssa.Function, args []Value, _ ssa.CallInstruction) Value {
 		return p.F.Ite(args[0].(*term.T), args[1].(*term.T), args[2].(*term.T))
 	})
